@@ -100,6 +100,9 @@ def gen(chk):
         spk = bytes([0x76, 0xa9, 0x14]) + h + bytes([0x88, 0xac])
         tf("scriptpubkey-to-addr", ["0x" + spk.hex()]); il("spk_to_addr(0x%s)" % spk.hex())
         tf("scriptpubkey-to-addr", ["0x" + spk[:-1].hex()]); tf("scriptpubkey-to-addr", ["0x" + bytes([0x77]).hex() + spk[1:].hex()])
+        # ... the template followed by more bytes is not a P2PKH scriptPubKey
+        for tail in (b"\x61", b"\x75\x51", bytes(8)):
+            tf("scriptpubkey-to-addr", ["0x" + (spk + tail).hex()]); il("spk_to_addr(0x%s)" % (spk + tail).hex())
     # add / sub
     def num(v, n=None):
         n = n or max(2, (v.bit_length() + 7) // 8)
